@@ -151,10 +151,9 @@ func VHRecv() {
 	ctx, cancel := c19context(kind)
 	timeout := vInt64("timeout")
 	peer := vChoose("peer", 3) // 0 nothing, 1 sends v, 2 closes
-	sent := false
 	switch peer {
 	case 1:
-		vGo(func() { ch <- v; sent = true })
+		vGo(func() { ch <- v }) // (the first goroutine started: vThreadDone(0) tells whether the send completed)
 	case 2:
 		vGo(func() { close(ch) })
 	}
@@ -185,7 +184,7 @@ func VHRecv() {
 		vCover("recv: blocked forever (no limit)")
 		return
 	}
-	sentBefore := sent
+	sentBefore := peer == 1 && vThreadDone(0)
 	rest := c19drain(ch)
 	if ok {
 		// took exactly the head of the queue
